@@ -25,7 +25,9 @@ def main():
             # Python keywords, empty), the run still begins with START
             s['config'] = rng.choice([{'opts': {'a-b': 1}}, {'labels': {'k.v': 2, 'class': 3}}, {'0': 1}, {'class': 'x'},
                                       {'thresholds': {'person/0': 0.5, 'x y': [1, 2]}}, {'m': {'': 1}}, {'__': 2}, {'é-1': {'Ü': None}}])
-        obs = cl.run_script(s, with_lineage=True, beats=beats, race=race, slow=race and rng.random() < 0.3, late=late, in_handler=s['in_handler'])
+        # the answer to some events is lost on the way back from the backend (the client raises after the backend has the event)
+        lose = rng.choice([None, None, None, ('COMPLETE', 'ABORT'), ('RUNNING',), ('START',)]) if not race else None
+        obs = cl.run_script(s, with_lineage=True, beats=beats, race=race, slow=race and rng.random() < 0.3, late=late, in_handler=s['in_handler'], lose_answer=lose)
         cl.life_oracle(run, s, obs, {'C18'})
         if not race and not late and rng.random() < 0.25:
             # a second run of the same process goes through the same emitter: its history stands on its own, under its own run id
@@ -61,7 +63,7 @@ def main():
     run.partial = ['the interleaving of the real heartbeat thread with the main thread is whatever the OS scheduler does in each run (the theorem '
                    'quantifies over all interleavings at action granularity; pre-emption inside one _emit_event call is excluded by the emitter lock)',
                    'an emitter shared by several Filter instances of one process at the same time (Filter.emitter is a class attribute) is outside the model; consecutive runs through one emitter are exercised (each judged as a run of its own)']
-    run.assumptions = ['OPENLINEAGE client emit() is synchronous and does not raise (the fake client)']
+    run.assumptions = ['OPENLINEAGE client emit() is synchronous; it may raise after the backend has recorded the event (lost answer)']
     sys.exit(run.finish())
 
 main()
